@@ -11,6 +11,9 @@ Scenario sub-language (everything else is `bad-op` for the model): the fixed tem
 followed by any sequence of
     reader r sub t2 history=keep_all [reliability=] [durability=]        (once; may come late = late joiner)
     write w <id> <value> [ts=<ns>]      lookup w <id>      take r      now
+    write-bg w <id> <value> [ts=<ns>]   join               (dsim ext2: a write left outstanding / its answer)
+    unregister w <id> [ts=<ns>]
+    (template option: `topic t0 P1 T0 ki` + `writer w0 pub t0 [qos]` before `writer w`: an idle first writer)
     advance <ns>   jump <ns>   late-release <ns>   release
     hold ACKNACK user   drop-if ACKNACK user [times=n]   drop-next <n> ACKNACK|DATA user   drop-if DATA user times=n
     hold-off   clear-faults   trace on|off|show
@@ -91,7 +94,12 @@ def canon_take(o):
     samples = []
     for t in toks:
         a = t.split("/")
-        samples.append((a[0].split(":")[0], f"{a[0]}@{a[9]}"))
+        if a[0] == "-":
+            # a key-only marker (unregister / dispose): no data, the instance is in the handle field h(<key>)
+            k = a[10][2:-1] if a[10].startswith("h(") else a[10]
+            samples.append((k, f"{k}:-@{a[9]}"))
+        else:
+            samples.append((a[0].split(":")[0], f"{a[0]}@{a[9]}"))
     order, groups = [], {}
     for k, s in samples:
         if k not in groups:
@@ -182,7 +190,10 @@ class Walk:
         self.wq, self.rq, self.reader_at = None, None, None      # qos token dicts; index of the reader line
         self.writes = []       # dict(i, key, val, ts_arg, t0, t1, ans, withheld, lossy)
         self.takes = []        # (i, time, [(key, val, ts)])
+        self.markers = []      # (i, key, ts) key-only samples the reader returned
         self.lookups = []      # (i, key, answer)
+        self.unregs = []       # dict(i, key, ans, ts_arg, t0): unregister_instance calls
+        bg = None              # the outstanding `write-bg` call
         self.trace = []        # (i, t, subs string, fate) of user traffic
         self.late_times = set()
         self.late_shows = set()    # indices of the `trace show` lines that display what a `late-release` emitted
@@ -211,7 +222,21 @@ class Walk:
                 if i + 1 < len(case.lines) and case.lines[i + 1] == "now" and i + 1 < len(out) and out[i + 1].startswith("ok "):
                     t1 = int(out[i + 1].split()[1])
                 self.writes.append({"i": i, "key": int(t[2]), "val": int(t[3]), "ts_arg": ts_arg, "t0": now, "t1": t1, "ans": o,
-                                    "withheld": withheld, "lossy": lossy > 0, "reader": self.reader_at is not None})
+                                    "withheld": withheld, "lossy": lossy > 0, "reader": self.reader_at is not None, "bg": False})
+            elif t[0] == "write-bg" and o == "ok":
+                ts_arg = next((int(x[3:]) for x in t[4:] if x.startswith("ts=")), None)
+                bg = {"key": int(t[2]), "val": int(t[3]), "ts_arg": ts_arg, "t0": now, "i_issue": i,
+                      "withheld": withheld, "lossy": lossy > 0, "reader": self.reader_at is not None, "bg": True}
+            elif t[0] == "join" and bg is not None:
+                t1 = None
+                if i + 1 < len(case.lines) and case.lines[i + 1] == "now" and i + 1 < len(out) and out[i + 1].startswith("ok "):
+                    t1 = int(out[i + 1].split()[1])
+                bg.update({"i": i, "t1": t1, "ans": o, "t_join": now})
+                self.writes.append(bg)
+                bg = None
+            elif t[0] == "unregister":
+                self.unregs.append({"i": i, "key": int(t[2]), "ans": o,
+                                    "ts_arg": next((int(x[3:]) for x in t[3:] if x.startswith("ts=")), None), "t0": now})
             elif t[0] == "take":
                 c = canon_take(o)
                 ss = []
@@ -219,7 +244,10 @@ class Walk:
                     for x in c.split()[2:]:
                         kv, ts = x.split("@")
                         k, v = kv.split(":")
-                        ss.append((int(k), int(v), int(ts)))
+                        if v == "-":
+                            self.markers.append((i, int(k), int(ts)))     # key-only sample of an unregister
+                        else:
+                            ss.append((int(k), int(v), int(ts)))
                 self.takes.append((i, now, ss))
             elif t[0] == "lookup":
                 self.lookups.append((i, int(t[2]), o))
@@ -332,10 +360,12 @@ def c27_oracle(case, out):
                 viol.append({"what": f"op {i} `{l}` answered Timeout although nothing can block it (writer reliable={rel}, depth={depth}, reliable reader matched={rel_reader})", "at": i})
             elif mbt is None:
                 viol.append({"what": f"op {i}: Timeout with an infinite max_blocking_time", "at": i})
-            elif el is not None and el != mbt:
-                viol.append({"what": f"op {i}: Timeout after {el} ns, max_blocking_time is {mbt} ns", "at": i})
+            elif el is not None and x["t1"] != max(x["t0"] + mbt, x.get("t_join", x["t0"])):
+                # (a `write-bg` call is answered at issue + max_blocking_time; `join` sees the answer when it is called)
+                viol.append({"what": f"op {i}: Timeout {el} ns after the write was issued at t={x['t0']}, max_blocking_time is {mbt} ns"
+                                     + (f" (join called at t={x['t_join']})" if x.get("bg") else ""), "at": i})
         elif ans == "ok":
-            if mbt is not None and el is not None and el > mbt:
+            if mbt is not None and el is not None and x["t1"] > max(x["t0"] + mbt, x.get("t_join", x["t0"])):
                 viol.append({"what": f"op {i}: the write completed {el} ns after it was issued, max_blocking_time is {mbt} ns", "at": i})
             if must_block:
                 viol.append({"what": f"op {i} `{l}` answered ok although the oldest of the {depth} stored samples of instance {x['key']} "
@@ -410,11 +440,14 @@ def c29_oracle(case, out):
         return []
     viol = []
     sn, info = 0, {}
-    for x in w.writes:
-        if x["ans"] == "ok":
-            sn += 1
-            ts = x["ts_arg"] if x["ts_arg"] is not None else x["t0"]
-            info[sn] = {"ts": ts, "val": x["val"], "key": x["key"], "dead_at_write": ts + life <= x["t0"], "i": x["i"]}
+    for x in sorted(w.writes + [dict(u, unreg=True) for u in w.unregs], key=lambda e: e["i"]):
+        if x["ans"] != "ok":
+            continue
+        sn += 1                     # an accepted unregister_instance consumes a sequence number as well (key-only change)
+        if x.get("unreg"):
+            continue
+        ts = x["ts_arg"] if x["ts_arg"] is not None else x["t0"]
+        info[sn] = {"ts": ts, "val": x["val"], "key": x["key"], "dead_at_write": ts + life <= x["t0"], "i": x["i"]}
     seen = set()
     for i, t, subs, fate in w.trace:
         for m in re.finditer(r"DATA\(sn=(\d+)\)", subs):
@@ -568,9 +601,12 @@ def _inf(x):
 
 class Gen:
     """incremental scenario builder; `now` lines follow every op that can move the clock"""
-    def __init__(self, r, wq, announce=None):
+    def __init__(self, r, wq, announce=None, first_writer=None):
         self.r = r
-        self.lines = _PRE + ([f"config announce={announce}"] if announce else []) + list(TEMPLATE[len(_PRE):]) + [("writer w pub t1 " + fmt_qos(wq)).rstrip()]
+        # first_writer: QoS tokens of an idle writer `w0` (own topic, never matched or written) created BEFORE `w`
+        extra = ["topic t0 P1 T0 ki", ("writer w0 pub t0 " + fmt_qos(first_writer)).rstrip()] if first_writer is not None else []
+        self.lines = (_PRE + ([f"config announce={announce}"] if announce else []) + list(TEMPLATE[len(_PRE):]) + extra
+                      + [("writer w pub t1 " + fmt_qos(wq)).rstrip()])
         self.val = 0
         self.has_reader = False
 
@@ -582,6 +618,15 @@ class Gen:
         self.val += 1
         self.lines.append("now")
         self.lines.append(f"write w {key} {self.val}" + (f" ts={ts}" if ts is not None else ""))
+        self.lines.append("now")
+
+    def write_bg(self, key, ts=None):
+        self.val += 1
+        self.lines.append("now")
+        self.lines.append(f"write-bg w {key} {self.val}" + (f" ts={ts}" if ts is not None else ""))
+
+    def join(self):
+        self.lines.append("join")
         self.lines.append("now")
 
     def op(self, line, clock=False):
@@ -627,12 +672,32 @@ def gen_c27(r, long=False):
     n = r.range(4, 12) * (3 if long else 1)
     late_at = r.range(1, n - 1) if mode == 2 else None
     held = False
+    # source timestamps that differ from the clock (replayed data, skewed application clock): the blocking time of a
+    # write must not depend on them
+    stamps = [None, None, None, -5 * SEC, -SEC, 0, 3 * SEC, 20 * SEC]
+    if mode >= 3 and reliable and mbt is not None and r.chance(1, 5):
+        # the instance of a BLOCKED write is unregistered (two calls in flight: write-bg ... join): the write must keep
+        # waiting for the acknowledgement of the oldest sample
+        x = r.choice(keys)
+        g.op("hold ACKNACK user"); held = True
+        for _ in range(depth):
+            g.write(x, ts=r.choice(stamps))
+        g.write_bg(x, ts=r.choice(stamps))
+        g.op(f"unregister w {x}")
+        if r.chance(1, 2):
+            g.op(f"advance {r.choice([1, 20 * MS, 50 * MS, 60 * MS])}", clock=True)
+        if r.chance(1, 3):
+            g.op("release")
+        g.join()
+        n = r.range(1, 5)
     for k in range(n):
         if late_at == k:
             g.reader(rq)
         c = r.below(100)
-        if c < 50:
-            g.write(r.choice(keys))
+        if c < 47:
+            g.write(r.choice(keys), ts=r.choice(stamps))
+        elif c < 50:
+            g.op(f"unregister w {r.choice(keys)}")
         elif c < 58 and withhold and g.has_reader and not held:
             g.op("hold ACKNACK user"); held = True
         elif c < 66 and held:
@@ -694,7 +759,10 @@ def gen_c29(r, long=False):
           "lifespan": str(life), "max_blocking": str(r.choice([0, 100 * MS, 300 * MS]))}
     if tl:
         wq["durability"] = "transient_local"
-    g = Gen(r, wq)
+    # a third of the cases: an idle writer with the default (infinite) lifespan is created first in the same publisher -
+    # the purge of expired samples must still reach the second writer
+    first = r.choice([None, None, {}, {"reliability": "reliable", "history": "keep_all"}, {"lifespan": str(5 * SEC)}])
+    g = Gen(r, wq, first_writer=first)
     rq = {"reliability": "reliable", "history": "keep_all"}
     if tl:
         rq["durability"] = "transient_local"
